@@ -4,6 +4,8 @@ import ast
 from ..model import AnalysisError
 from ..lib import (FV, Alias, alias_term, decode_new, decode_call, phi_members, is_sym, is_const, is_str, tuple_consts,
                    strip_stores)
+from ..lib import (reached_iff, reached_implies, implies_reached, reached_iff_any, path_term, cond_equiv, cond_implies,  # noqa: F401
+                   else_stmts, branch_stmts, context_literals)
 from ..cfg import walk_stmts
 from . import common as cm
 from .common import FIELD
@@ -119,24 +121,17 @@ def d2_and(chk, repo):
                    f"valid={v.show(got)}; expected {v.show(want)}", v.f, r)
     # non-field operand of the generic operator path keeps the operand's validity
     v = FV(repo, "field.Field._apply_operator", param_types={"other": FIELD})
-    for st in v.stmts():
-        if isinstance(st, ast.If):
-            pass
-    ifst, first = cm.field_branch_stmt(v, "other")
-    branches = []
-    cur = ifst
-    while cur.orelse and len(cur.orelse) == 1 and isinstance(cur.orelse[0], ast.If):
-        cur = cur.orelse[0]
-        if not cm_always_raises(cur.body):
-            branches.append(cur.body[0])
-    chk.require(branches, "_apply_operator: no non-field operand branch found")
+    other = cm.typed_param(v, "other", FIELD)
     want = v.spec("self.valid")
-    for b in branches:
-        for r, args in cm.returned_news(v, via=[b]):
-            got = args.get("valid")
-            chk.ob(f"field.Field._apply_operator::scalar-branch@{v.src(v.cfg.parent[id(b)][0].test)[:40]}::kw=valid",
-                   got is not None and v.eq(got, want), "C08.D2",
-                   f"valid={v.show(got)}; expected {v.show(want)}", v.f, r)
+    want_and = v.spec("np.logical_and(self.valid, o.valid)", env={"o": other})
+    for r, args in cm.returned_news(v):
+        got = args.get("valid")
+        mem = phi_members(v.ctx, got) if got is not None else []
+        plain = [m for m in mem if v.eq(m, want)]
+        both = [m for m in mem if v.eq(m, want_and)]
+        chk.ob("field.Field._apply_operator::plain-branches::kw=valid",
+               bool(plain) and len(plain) + len(both) == len(mem), "C08.D2",
+               f"valid={v.show(got)}; expected self.valid on every path that does not combine two fields", v.f, r)
 
 
 def cm_always_raises(stmts):
